@@ -118,6 +118,14 @@ def run_world_prop(prop, tier, seed, replay):
     for dmsg in res.get("drift", [])[:3]:
         print("SPEC-DRIFT: the strict store model (spec/WorldStore.tla) no longer predicts the store the code produces: " + dmsg)
     fails = [f for f in res["fails"] if f["prop"] == prop]
+    if prop == "C15" and not replay:
+        # resources under scheduling: final resource state of every schedule run vs the sequential run
+        sres = pipe_sched.run_sched(tier, seed)
+        for f in sres["fails"]:
+            if f["prop"] == "C15":
+                h = f["hdr"]
+                fails.append({"prop": "C15", "line": f["line"], "name": f["name"], "op": "run_schedule %s preset %s" % (h.get("names"), h.get("preset")),
+                              "trace": f["trace"], "replay": f["replay"]})
     if prop == "C11":
         # a world handed back from untrusted input must keep satisfying every other property
         fails += [f for f in res["fails"] if f.get("profile", "").startswith("untrusted") and f["prop"] not in ("C11", "INFO", "HARNESS")]
@@ -130,6 +138,8 @@ def run_world_prop(prop, tier, seed, replay):
                                "replay": m["log"]})
     level, text = WORLD_NOTES[prop]
     st = res["stats"]
+    if not replay and not violations and relevant(prop, st) == 0:
+        raise ToolError("vacuous run: no event exercised %s (the drivers produced nothing relevant)" % prop)
     cov = {
         "evaluations": st.get("events", 0),
         "distinct_nontrivial": res["distinct"],
